@@ -30,9 +30,19 @@ theorem decodeMsg_action (L : Lib J) (line : Bytes) (t : Triple J) (h : decodeMs
       · cases h
   · cases h
 
-/-- a neutral line leaves the dispatcher in a state that answers like the one before -/
+/-- a line that is not a message is answered without the dispatcher -/
+theorem decodeMsg_undecodable (L : Lib J) (line : Bytes) (h : undecodableB L line = true) : decodeMsg L line = none := by
+  unfold undecodableB at h
+  unfold decodeMsg
+  simp only
+  by_cases hu : L.utf8ok (strip line) = true
+  · simp only [hu, Bool.not_true, Bool.false_or, Bool.and_eq_true, bne_iff_ne, ne_eq, Option.isNone_iff_eq_none] at h
+    simp [hu, h.1, h.2]
+  · simp [hu]
+
+/-- a line that may be left out leaves the dispatcher in a state that answers like the one before -/
 theorem handleLine_neutral (T : Tables) (L : Lib J) (d : Disp σ J) (R : σ → σ → Prop) (hd : DispNeutral T d R)
-    (st : σ) (line : Bytes) (hn : Neutral T line = true) : R (handleLine T L d st line).2 st := by
+    (st : σ) (line : Bytes) (hn : Removable T L line = true) : R (handleLine T L d st line).2 st := by
   unfold handleLine nextMessage
   by_cases hb : strip line = []
   · simp only [hb, ↓reduceIte]
@@ -47,7 +57,10 @@ theorem handleLine_neutral (T : Tables) (L : Lib J) (d : Disp σ J) (R : σ → 
       · simp only [hh, ↓reduceIte]
         apply hd.neutral
         rw [decodeMsg_action L line t hdec]
-        simpa [Neutral, reqOf, hb] using hn
+        simp only [Removable, Bool.or_eq_true] at hn
+        rcases hn with hn | hn
+        · simpa [Neutral, reqOf, hb] using hn
+        · rw [decodeMsg_undecodable L line hn] at hdec; cases hdec
 
 /-- states that answer alike give the same reply to a line and stay alike -/
 theorem handleLine_same (T : Tables) (L : Lib J) (d : Disp σ J) (R : σ → σ → Prop) (hd : DispNeutral T d R)
@@ -67,7 +80,7 @@ theorem handleLine_same (T : Tables) (L : Lib J) (d : Disp σ J) (R : σ → σ 
 /-- leaving out neutral lines: the answers to the lines that stay are the same, and the dispatcher
 ends in a state that answers alike -/
 theorem answers_neutral_removed (T : Tables) (L : Lib J) (d : Disp σ J) (R : σ → σ → Prop) (hd : DispNeutral T d R) :
-    ∀ (m : Marked) (s s' : σ), OnlyNeutralDropped T m → R s s' →
+    ∀ (m : Marked) (s s' : σ), OnlyNeutralDropped T L m → R s s' →
       keptOf m (answers T L d s (allLines m)) = answers T L d s' (keptLines m)
       ∧ R (stateAfter T L d s (allLines m)) (stateAfter T L d s' (keptLines m))
   | [], s, s', _, h => ⟨by simp [keptOf, keptLines, answers], by simpa [allLines, keptLines, stateAfter] using h⟩
@@ -77,7 +90,7 @@ theorem answers_neutral_removed (T : Tables) (L : Lib J) (d : Disp σ J) (R : σ
     simp only [allLines, keptLines, List.map_cons, List.filter_cons_of_pos, answers, keptOf, stateAfter] at ih1 ih2 ⊢
     exact ⟨by rw [h1, ih1], ih2⟩
   | (l, false) :: m, s, s', hm, h => by
-    have hn : Neutral T l = true := hm (l, false) (List.mem_cons_self ..) rfl
+    have hn : Removable T L l = true := hm (l, false) (List.mem_cons_self ..) rfl
     have h2 : R (handleLine T L d s l).2 s' := hd.trans _ _ _ (handleLine_neutral T L d R hd s l hn) h
     obtain ⟨ih1, ih2⟩ := answers_neutral_removed T L d R hd m _ _ (fun p hp => hm p (List.mem_cons_of_mem _ hp)) h2
     simp only [allLines, keptLines, List.map_cons, answers, keptOf, stateAfter] at ih1 ih2 ⊢
